@@ -567,8 +567,12 @@ class Node:
                                      peer.port))
             except socket.error as e:
                 if e.args[0] != errno.EINPROGRESS:
-                    self.close_connection_socket(
-                        conn, DISCONNECT_REASON_SOCKET_FAIL)
+                    # not necessarily the connection thread (`start` dials
+                    # from its caller's thread): the socket and the tables
+                    # belong to the connection thread, which is asked to
+                    # close the socket
+                    peer.disconnect_reason = DISCONNECT_REASON_SOCKET_FAIL
+                    conn.close()
                     return
                 self.logger.warning(f"{conn} socket not yet ready, waiting")
             else:
@@ -594,8 +598,12 @@ class Node:
                 peer_socket.connectx(connect_addr)
             except socket.error as e:
                 if e.args[0] != errno.EINPROGRESS:
-                    self.close_connection_socket(
-                        conn, DISCONNECT_REASON_SOCKET_FAIL)
+                    # not necessarily the connection thread (`start` dials
+                    # from its caller's thread): the socket and the tables
+                    # belong to the connection thread, which is asked to
+                    # close the socket
+                    peer.disconnect_reason = DISCONNECT_REASON_SOCKET_FAIL
+                    conn.close()
                     return
                 self.logger.warning(f"{conn} socket not yet ready, waiting")
             else:
